@@ -97,10 +97,37 @@ def wants_file_route(game):
     return hashlib.sha1(repr(game).encode()).digest()[0] % 4 == 0
 
 
+def wants_object_history(game):
+    import hashlib
+    d = hashlib.sha1(repr(game).encode()).digest()
+    return d[0] % 4 != 0 and d[1] % 6 == 0
+
+
+def _one_solve(r, obj_or_factory, sweeps, n, on_reward_phase):
+    """One call of solve() under a sweep budget; obj_or_factory is an object or builds one (inside the budget)."""
+    with sweep_budget(r.tad, sweeps, n, on_reward_phase=on_reward_phase) as shim:
+        try:
+            obj = obj_or_factory() if callable(obj_or_factory) else obj_or_factory
+            res = obj.solve()
+            return Outcome("ok", result=res, sweeps=shim.sweeps), obj
+        except BudgetExceeded as e:
+            return Outcome("budget", exc=e, sweeps=shim.sweeps), None
+        except SkipSolve as e:
+            return Outcome("skipped", exc=e, sweeps=shim.sweeps), None
+        except RecursionError as e:
+            return Outcome("exception", exc=e, where=innermost_repo_frame(e)), None
+        except Exception as e:
+            o = classify_exception(e)
+            o.sweeps = shim.sweeps
+            return o, (obj if "obj" in locals() else None)
+
+
 def solve(game, prune, sweeps=None, copy=True, on_reward_phase=None, via_file=None):
     """StochasticGame(**game, prune_states=prune).solve() on a copy, under a sweep budget.  A quarter of the
     games (chosen by a digest of the description) reach the solver through an input file and the repository's
-    reader instead of a plain copy."""
+    reader instead of a plain copy.  About an eighth are solved as the SECOND solve of one object: the object is
+    built in the other pruning mode and solved, its prune_states attribute is flipped, and it is solved again
+    (what is examined is that second result; when the first solve does not end by itself the plain road is used)."""
     r = repo()
     g = copy_game(game) if copy else game
     if copy and (via_file or (via_file is None and wants_file_route(game))):
@@ -115,20 +142,16 @@ def solve(game, prune, sweeps=None, copy=True, on_reward_phase=None, via_file=No
             g = loaded
             NOTES.add("input_file_route")
     n = len(game["players"]) if hasattr(game.get("players"), "__len__") else 1
-    with sweep_budget(r.tad, sweeps, n, on_reward_phase=on_reward_phase) as shim:
-        try:
-            res = r.tad.StochasticGame(prune_states=prune, **g).solve()
-            return Outcome("ok", result=res, sweeps=shim.sweeps)
-        except BudgetExceeded as e:
-            return Outcome("budget", exc=e, sweeps=shim.sweeps)
-        except SkipSolve as e:
-            return Outcome("skipped", exc=e, sweeps=shim.sweeps)
-        except RecursionError as e:
-            return Outcome("exception", exc=e, where=innermost_repo_frame(e))
-        except Exception as e:
-            o = classify_exception(e)
-            o.sweeps = shim.sweeps
+    if copy and via_file is None and wants_object_history(game):
+        g2 = copy_game(g)
+        first, obj = _one_solve(r, lambda: r.tad.StochasticGame(prune_states=not prune, **g2), sweeps, n, on_reward_phase)
+        if obj is not None and first.kind in ("ok", "nosol") and hasattr(obj, "prune_states"):
+            obj.prune_states = prune
+            NOTES.add("second_solve_of_one_object")
+            o, _ = _one_solve(r, obj, sweeps, n, on_reward_phase)
             return o
+    o, _ = _one_solve(r, lambda: r.tad.StochasticGame(prune_states=prune, **g), sweeps, n, on_reward_phase)
+    return o
 
 
 def call(fn, *a, **k):
